@@ -13,6 +13,7 @@ import (
 	"sync"
 	"time"
 
+	"github.com/fluffle/goirc/logging"
 	"github.com/fluffle/goirc/state"
 )
 
@@ -205,6 +206,18 @@ func (u *universe) randCall(r *rand.Rand) Call {
 	}
 }
 
+type slowLogger struct{}
+
+func (slowLogger) Debug(string, ...interface{}) {}
+func (slowLogger) Info(string, ...interface{})  {}
+func (slowLogger) Warn(f string, a ...interface{}) {
+	_ = fmt.Sprintf(f, a...)
+}
+func (slowLogger) Error(f string, a ...interface{}) {
+	_ = fmt.Sprintf(f, a...)
+	time.Sleep(200 * time.Microsecond)
+}
+
 // RunHist records histories of random calls on real trackers.
 func RunHist(args []string) int {
 	fs := flag.NewFlagSet("trk-hist", flag.ExitOnError)
@@ -236,6 +249,9 @@ func RunHist(args []string) int {
 			u.chans = append(u.chans, fmt.Sprintf("#chan%d", i))
 		}
 	}
+	// a logger that takes its time: whatever the tracker logs while it works must not open a window for other callers
+	logging.SetLogger(slowLogger{})
+	defer logging.SetLogger(nil)
 	rng := rand.New(rand.NewSource(*seed))
 	opCount := map[string]int{}
 	calls := 0
@@ -271,8 +287,12 @@ func RunHist(args []string) int {
 			setup = append(setup, Call{"NewNick", []string{"b"}})
 			for k := 0; k < nch; k++ {
 				cn := fmt.Sprintf("#w%d", k)
-				setup = append(setup, Call{"NewChannel", []string{cn}}, Call{"Associate", []string{cn, "a"}})
-				if k%3 == 0 {
+				setup = append(setup, Call{"NewChannel", []string{cn}})
+				if k%4 != 1 {
+					setup = append(setup, Call{"Associate", []string{cn, "a"}})
+				}
+				if k%3 == 0 || k%4 == 1 {
+					// (k%4 == 1: a channel without the client, "b" its only member)
 					setup = append(setup, Call{"Associate", []string{cn, "b"}})
 				}
 			}
